@@ -61,7 +61,7 @@ func c10Replay(t *testing.T, env *mc.Env, tree *c10Tree) bool {
 		l := c10LayoutByName(c.Layout)
 		pool := c10SelPool(l, c.Mask)
 		var got []int32
-		ps := mc.Guard(func() { got = calculateBESuppressCPUSetPolicy(c.Want, pool) })
+		ps := c10Guard(func() { got = calculateBESuppressCPUSetPolicy(c.Want, pool) })
 		fmt.Printf("REPLAY select case=%+v pool=%v -> %v panic=%q\n", c, pool, got, c10PanicHead(ps))
 		if k, w := c10JudgeSel(l, c, pool, got, ps); k != "" {
 			vs = append(vs, mc.Violation{Key: k, What: w})
